@@ -81,4 +81,7 @@ SAMPLE_PROGRAM_LINES = [
     '530 IF A THEN IF B THEN PRINT 1 ELSE PRINT 2 ELSE PRINT 3', '540 GO TO 10', '550 GO SUB 10', '560 ?"HI"',
     '570 PRINT &HFF,&777,1E5,1.5D3,2!,3#,4%', '580 FOR I=10 TO 1 STEP -1', '590 X=INSTR(2,A$,"B")', '600 PRINT LEFT$(A$,1);RIGHT$(A$,2);MID$(A$,2)',
     'PRINT 1', 'RUN', 'LIST', 'LIST -20', 'DELETE 5', '10', '  20  ', 'A=1:B=2', 'IFA=1THENPRINT"X"', 'FORI=1TO10', 'PRINTA$B$',
+    # two-word spellings and relational operators with a blank inside, several of them in one line and in either order
+    '610 GO SUB 100:C=A > =B', '620 A=1:ON A GO TO 100:PRINT A < >B', '630 GO TO 20:IF A < = B THEN 30', 'GO TO 10:?1< >2',
+    '640 IF A < > B THEN GO TO 10', '650 C=A = <B:GO SUB 100:D=A > <B', '660 GO TO 10:GO SUB 20:?A> =B',
 ]
